@@ -16,6 +16,7 @@ type probeSpec struct {
 	Fail string `json:"fail,omitempty"` // "", "ret" (callback returns an error), "append" (appends to its scope, returns nil), "syntax" (the line cannot be split into arguments: the command never starts)
 	Hold int    `json:"hold,omitempty"` // 0 none, 1 K scheduler yields, 2 sleep K µs, 3 gate: until every direct dependant is submitted, then ≤ K rounds
 	K    int    `json:"k,omitempty"`
+	Take int    `json:"take,omitempty"` // the command reads this many lines from its input; they follow its own line in the body
 	task *taskSpec
 	pos  int
 }
@@ -231,6 +232,13 @@ func genProgram(rng *rand.Rand, kind string) *program {
 			p.assign = append(p.assign, rng.Intn(p.Submitters))
 		}
 	}
+	// now and then a command consumes input itself: the lines that follow its own line in the body
+	// are its data, not commands (the loop reads the next command only after this one returned)
+	for _, pr := range p.probes {
+		if pr.Fail == "" && rng.Intn(7) == 0 {
+			pr.Take = 1 + rng.Intn(2)
+		}
+	}
 	return p
 }
 
@@ -245,8 +253,21 @@ func letters(n int) string {
 	}
 }
 
+// dataLines are the input lines a taking probe must receive (it reads them the way the command loop
+// reads commands: varutil.ReadArguments on the shared input, one call per line).
+func dataLines(pr *probeSpec) []string {
+	var out []string
+	for k := 0; k < pr.Take; k++ {
+		out = append(out, fmt.Sprintf("datum-%d-%d \"two  blanks\" tab\tseparated", pr.ID, k))
+	}
+	return out
+}
+
 func probeLine(pr *probeSpec) string {
 	s := fmt.Sprintf("probe --id=%d", pr.ID)
+	if pr.Take > 0 {
+		return s + fmt.Sprintf(" --take=%d\n", pr.Take) + strings.Join(dataLines(pr), "\n")
+	}
 	switch pr.Fail {
 	case "":
 	case "syntax":
@@ -357,4 +378,9 @@ func (p *program) key() string {
 		fmt.Fprintf(&sb, "|%s<%s>{%s}", t.Name, strings.Join(t.Waits, ","), bodyText(t))
 	}
 	return sb.String()
+}
+
+// dataArgs is what ReadArguments must return for the k-th data line of pr.
+func dataArgs(pr *probeSpec, k int) string {
+	return fmt.Sprintf("datum-%d-%d|two  blanks|tab|separated", pr.ID, k)
 }
